@@ -61,8 +61,10 @@ impl RngCore for LogRng {
 
 fn key(m: DistanceMetric, a: &Color, b: &Color) -> i32 {
     let d = match m {
-        DistanceMetric::CIE76 => a.distance_delta_e_cie76(b),
-        DistanceMetric::CIEDE2000 => a.distance_delta_e_ciede2000(b),
+        // the metric itself on Lab coordinates (what C11 checks against the published formulas), not the
+        // Color-level wrappers
+        DistanceMetric::CIE76 => pastel::delta_e::cie76(&a.to_lab(), &b.to_lab()),
+        DistanceMetric::CIEDE2000 => pastel::delta_e::ciede2000(&a.to_lab(), &b.to_lab()),
     };
     (d * 1000.0) as i32
 }
